@@ -106,7 +106,7 @@ pub fn check(rep: &Report) {
         rep.count("programs_accepted", 1);
         rep.count(&format!("origin={}", origin.split('/').next().unwrap_or("")), 1);
         let viol = |stage: &str, e: String| {
-            let kind = if e.contains("underflow") { "stack-underflow" } else if e.contains("heights") { "inconsistent-join" } else if e.contains("at exit") || e.contains("tail call with") { "exit-height" } else if e.contains("jump target") { "jump-out-of-range" } else if e.contains("reads local") || e.contains("resets locals") { "undefined-local" } else if e.contains("out of range") { "index-out-of-range" } else { "other" };
+            let kind = if e.contains("locals when it ends") { "entry-exit-locals" } else if e.contains("underflow") { "stack-underflow" } else if e.contains("heights") { "inconsistent-join" } else if e.contains("at exit") || e.contains("tail call with") { "exit-height" } else if e.contains("jump target") { "jump-out-of-range" } else if e.contains("reads local") || e.contains("resets locals") { "undefined-local" } else if e.contains("out of range") { "index-out-of-range" } else { "other" };
             rep.violation(Violation { signature: format!("C07:{}:{}", stage, kind), what: format!("[{}] {}", origin, e), witness: json!({"source": src, "stage": stage}) });
         };
         // (a) as compiled
@@ -114,6 +114,12 @@ pub fn check(rep: &Report) {
         match bcverify::verify_all(&tables_of_program(&cp.program, false), &|_| None) {
             Ok(ps) => { rep.count("functions_verified_as_compiled", ps.functions as u64); rep.count("join_points", ps.joins as u64); rep.count("functions_with_joins", ps.functions_with_joins as u64); rep.count("instructions_visited", ps.instructions as u64); if ps.functions_with_joins > 0 { rep.distinct(crate::rng::fnv64(src.as_bytes())); } }
             Err(e) => { viol("compiled", e); return; }
+        }
+        // (a') the program's entry function is what a REPL session runs per line, and the session keeps its locals: every path must
+        // leave the same number of them (a later line reads them by index)
+        {
+            let t = tables_of_program(&cp.program, false);
+            if let Some(f) = t.functions.get(cp.entry) { if let Ok((_, states)) = bcverify::verify_function(cp.entry, f, &t, 0) { if let Some(Some(e)) = states.last() { rep.count("entry_functions_checked_for_exit_locals", 1); if e.lmin != e.lmax { viol("compiled", format!("the entry function leaves between {} and {} locals when it ends, depending on the path", e.lmin, e.lmax)); return; } } } }
         }
         // (b) tree-shaken
         rep.eval(1);
